@@ -84,7 +84,12 @@ class Spy:
         self.outer = outer
         self.actions = []
         self._orig = outer.step
-        outer.step = self  # instance attribute shadows the method
+        try:
+            outer.step = self  # instance attribute shadows the method
+        except AttributeError:
+            # the object does not take instance attributes: shadow the method in a one-off subclass instead
+            spy, cls = self, type(outer)
+            outer.__class__ = type(cls.__name__, (cls,), {'step': lambda self_, action: spy(action), '__slots__': ()})
 
     def __call__(self, action):
         self.actions.append(action)
